@@ -544,7 +544,9 @@ class DirectSolver(LinearSolver):
                 x_vec[:] = sol_array = scipy.linalg.lu_solve(self._lup, b_vec, trans=trans_lu)
 
         if not system.under_complex_step and self._lin_rhs_checker is not None and mode == 'rev':
-            self._lin_rhs_checker.add_solution(b_vec, sol_array, system, copy=True)
+            # sol_array is the unscaled solution.  The cached right-hand side and the vector a cached
+            # solution is later copied into are both in the scaled state, so cache x_vec.
+            self._lin_rhs_checker.add_solution(b_vec, x_vec, system, copy=True)
 
     def preferred_sparse_format(self):
         """
